@@ -1,16 +1,22 @@
 #!/bin/sh
 # tools/evalmut.sh <mutant dir> [check ids...]
 # Confirms a seeded change (patch.diff + demo/ + meta.json) in a scratch worktree of /repo and runs
-# the named checks (default: the mutant's property) against it. Prints a summary; leaves nothing behind.
+# the named checks (default: the mutant's property) against it from a private copy of /verif, so
+# that several evaluations can run side by side without touching /verif/lean/Pithos/Gen or
+# /verif/evidence. Prints a summary (also into <mutant dir>/eval.txt); leaves nothing behind.
 set -u
-M=$1; shift
+M=$(cd "$1" && pwd); shift
 PROP=$(python3 -c "import json,sys;print(json.load(open('$M/meta.json'))['property'])")
 CHECKS=${*:-$PROP}
 WT=/var/tmp/evalwt-$$
+VC=/var/tmp/evalverif-$$
+L=/var/tmp/evalmut-$$
 export GOFLAGS=-mod=mod GOPROXY=off GOSUMDB=off
 git -C /repo worktree add --detach $WT HEAD >/dev/null 2>&1 || { echo "worktree failed"; exit 2; }
-cleanup() { git -C /repo worktree remove --force $WT >/dev/null 2>&1; (cd /verif && git checkout -- lean/Pithos/Gen 2>/dev/null); }
+cleanup() { git -C /repo worktree remove --force $WT >/dev/null 2>&1; rm -rf $VC $L-*.log; }
 trap cleanup EXIT
+{
+echo "== $(basename $M) property=$PROP repo=$(git -C /repo rev-parse --short HEAD) checks=$CHECKS"
 DEMO_REL=$(python3 -c "
 import json
 v=json.load(open('$M/meta.json'))['demo_path_in_repo']
@@ -19,19 +25,28 @@ if isinstance(v,dict): v=list(v.values())[0]
 print(str(v).split()[0].rstrip(','))")
 DEMO_CMD=$(python3 -c "import json;print(json.load(open('$M/meta.json'))['demo_cmd'])")
 case "$DEMO_REL" in *.go) DEMO_DIR=$(dirname "$DEMO_REL");; *) DEMO_DIR=$DEMO_REL;; esac
-place_demo() { mkdir -p "$WT/$DEMO_DIR"; cp $M/demo/* "$WT/$DEMO_DIR/"; }
+place_demo() { mkdir -p "$WT/$DEMO_DIR"; cp -r $M/demo/* "$WT/$DEMO_DIR/"; }
 cd $WT
+git apply --check $M/patch.diff || { echo "patch does not apply on HEAD"; exit 2; }
 place_demo
-if sh -c "$DEMO_CMD" >/var/tmp/evalmut-clean.log 2>&1; then echo "demo on clean tree: PASS (expected)"; grep -q "no tests to run" /var/tmp/evalmut-clean.log && echo "  WARNING: demo did not run (no tests to run)"; else echo "demo on clean tree: FAIL (unexpected)"; tail -5 /var/tmp/evalmut-clean.log; fi
+if sh -c "$DEMO_CMD" >$L-clean.log 2>&1; then echo "demo on clean tree: PASS (expected)"; grep -q "no tests to run" $L-clean.log && echo "  WARNING: demo did not run (no tests to run)"; else echo "demo on clean tree: FAIL (unexpected)"; tail -5 $L-clean.log; fi
 git apply $M/patch.diff || { echo "patch does not apply"; exit 2; }
 go build ./... || { echo "mutant does not build"; exit 2; }
-if sh -c "$DEMO_CMD" >/var/tmp/evalmut-mut.log 2>&1; then echo "demo on mutated tree: PASS (unexpected)"; else echo "demo on mutated tree: FAIL (expected)"; fi
+if sh -c "$DEMO_CMD" >$L-mut.log 2>&1; then echo "demo on mutated tree: PASS (unexpected)"; else echo "demo on mutated tree: FAIL (expected)"; grep -E "^\s+\S+\.go:[0-9]+:|^--- FAIL|panic:" $L-mut.log | head -4 | cut -c1-200; fi
 # remove the demo, keep the patch
-git clean -fdq; 
-PKGS=$(git diff --name-only | xargs -n1 dirname | sort -u | sed 's#^#./#')
-if go test -mod=mod -vet=off -count=1 $PKGS >/var/tmp/evalmut-tests.log 2>&1; then echo "existing tests of touched packages ($PKGS): PASS"; else echo "existing tests of touched packages: FAIL"; grep -E "^(---|FAIL)" /var/tmp/evalmut-tests.log | head -5; fi
-cd /verif
+git clean -fdq
+PKGS=$(git diff --name-only | xargs -n1 dirname | sort -u | sed 's#^#./#' | tr '\n' ' ')
+if go test -mod=mod -vet=off -count=1 $PKGS >$L-tests.log 2>&1; then echo "existing tests of touched packages ($PKGS): PASS"; else echo "existing tests of touched packages ($PKGS): FAIL"; grep -E "^(---|FAIL)" $L-tests.log | head -5; fi
+mkdir -p $VC
+rsync -a --exclude .git --exclude /bin --exclude /replays --exclude /evidence --exclude /scratch --exclude /seeded /verif/ $VC/
+mkdir -p $VC/replays $VC/evidence
+cd $VC
 for c in $CHECKS; do
-  out=$(VERIF_REPO=$WT ./check $c 2>&1)
-  echo "$out" | grep -E "^VIOLATION|^KNOWN|tier=" | cut -c1-230 | sed "s/^/  [$c] /"
+  out=$(VERIF_REPO=$WT ./check $c 2>&1); rc=$?
+  echo "  [$c] rc=$rc"
+  echo "$out" | grep -E "^VIOLATION|^KNOWN" | cut -c1-260 | sed "s/^/  [$c] /"
+  # keep the replay of the first violation next to the mutant
+  r=$(echo "$out" | grep -E "^VIOLATION" | head -1 | sed -n 's/.*replay=\([^ ]*\).*/\1/p')
+  [ -n "$r" ] && [ -f "$r" ] && cp "$r" "$M/replay-$c.json"
 done
+} 2>&1 | tee $M/eval.txt
